@@ -62,7 +62,7 @@ def run(ctx):
                 'float32/64 input, NumPy and Dask (chunked off the transformed axes, lazily); attribute names outside the list; STFT / ISTFT on '
                 'baseband signals with 1..4 channels (x2 pols), three alignments, nperseg odd / even / 1 / = length / not dividing the length, '
                 'tones at known absolute frequencies, with and without start time. distinct by arguments.')
-    ctx.trusted = ['Coq 8.16.1 kernel; stdlib real-number axioms (segment inversion over C)', 'translator T2 (_FFT_FUNCS, guard, target name, dask branch read from fft.py)',
+    ctx.trusted = ['translator T9 translate/py_stft2coq.py (bookkeeping of stft / istft; reshape / swapaxes / fftshift / FFT lines pinned) and the T2 pin of the pb.fft wrapper bodies', 'Coq 8.16.1 kernel; stdlib real-number axioms (segment inversion over C)', 'translator T2 (_FFT_FUNCS, guard, target name, dask branch read from fft.py)',
                    'scipy.fft = the mathematical DFT (validated against a direct longdouble DFT matrix for fft / ifft on every case)']
     ctx.assumptions = ['values within 1e-10*N*max|x| (double) / 2e-5*max|x| (single) of the reference; exact equality with scipy.fft on the same input']
     built = ctx.build(['Props/C20.vo'])
